@@ -61,17 +61,15 @@ Definition same_instant (a b : float) : bool := fclose ((a - b) * day2sec) 0 tol
 
 Definition secs_of (h mi s : Z) : Z := h * 3600 + mi * 60 + s.
 
-(* (b): the Epoch built with kwargs kw is later than the plain one by ms milliseconds;
+(* (b): the Epoch e1 built with kwargs kw is later than the plain one e0 by ms milliseconds;
    (c): get_date with the same kwargs gives back the civil date and time to 1 ms *)
-Definition chk_offset (y m d h mi s : Z) (kw : fval) (ms : Z) : bool :=
-  offset_ok (mkEpoch (civil y m d h mi s) kw_none) (mkEpoch (civil y m d h mi s) kw) ms.
-Definition chk_back (y m d h mi s : Z) (kw : fval) : bool :=
-  same_instant (instant_of_date (get_date (mkEpoch (civil y m d h mi s) kw) kw))
-               (instant y m d (secs_of h mi s)).
+Definition chk_kw (y m d h mi s : Z) (e0 kw : fval) (ms : Z) : bool :=
+  let e1 := mkEpoch (civil y m d h mi s) kw in
+  offset_ok e0 e1 ms &&
+  same_instant (instant_of_date (get_date e1 kw)) (instant y m d (secs_of h mi s)).
 (* the plain (TT) construction is the civil instant itself (to 1e-4 s) *)
-Definition chk_plain (y m d h mi s : Z) : bool :=
-  fclose ((jde_of (mkEpoch (civil y m d h mi s) kw_none) - instant y m d (secs_of h mi s)) * day2sec)
-         0 tol_offset.
+Definition plain_ok (e0 : fval) (y m d h mi s : Z) : bool :=
+  fclose ((jde_of e0 - instant y m d (secs_of h mi s)) * day2sec) 0 tol_offset.
 
 Definition times : list (Z * Z * Z) := [(0, 0, 0); (12, 0, 0); (23, 59, 59)].
 Definition days (y m : Z) : list Z := [1; 15; mlen y m].
@@ -80,19 +78,18 @@ Definition months : list Z := zrange 1 12.
 Definition on_month (f : Z -> Z -> Z -> Z -> Z -> Z -> bool) (y m : Z) : bool :=
   forallb (fun d => forallb (fun t => f y m d (fst (fst t)) (snd (fst t)) (snd t)) times) (days y m).
 
-(* table value: utc=True *)
-Definition chk_utc_date (y m d h mi s : Z) : bool :=
-  chk_plain y m d h mi s && chk_offset y m d h mi s kw_utc (tt_utc_ms y m) && chk_back y m d h mi s kw_utc.
-
 (* explicit leap_seconds = L replaces the table value: the offset is 32.184 + 10 + L from 1972 on *)
 Definition override_ms (y L : Z) : Z := if utc_era y then 32184 + 1000 * (10 + L) else 0.
-Definition chk_override_date (L y m d h mi s : Z) : bool :=
-  chk_offset y m d h mi s (kw_leap L) (override_ms y L) && chk_back y m d h mi s (kw_leap L).
-Definition chk_overrides (y m d h mi s : Z) : bool :=
-  forallb (fun L => chk_override_date L y m d h mi s) (zrange 1 60).
+
+(* one civil date and time: plain construction, utc=True (table value tt_utc_ms), overrides 1..60 *)
+Definition chk_date (y m d h mi s : Z) : bool :=
+  let e0 := mkEpoch (civil y m d h mi s) kw_none in
+  plain_ok e0 y m d h mi s &&
+  chk_kw y m d h mi s e0 kw_utc (tt_utc_ms y m) &&
+  forallb (fun L => chk_kw y m d h mi s e0 (kw_leap L) (override_ms y L)) (zrange 1 60).
 
 Definition chk_year (y : Z) : bool :=
-  forallb (fun m => chk_leap y m && on_month chk_utc_date y m && on_month chk_overrides y m) months.
+  forallb (fun m => chk_leap y m && on_month chk_date y m) months.
 
 (* ---- (e) Delta-T *)
 Definition fin (v : fval) : bool := match v with VFloat x => is_finite x | _ => false end.
